@@ -14,7 +14,7 @@ from mc import poolcheck, poolx
 ID = "C14"
 LEVEL = "model_checking"
 
-# (label, ops for M, definition of M's task 3 if any, fail_drain)
+# (label, ops for M, definition of M's task 3 if any)
 M_ACTIONS = [
     ("garbage", [("raw", b"garbage\n")], None),
     ("empty-line", [("raw", b"\n")], None),
@@ -31,6 +31,10 @@ M_ACTIONS = [
     ("cancel-unknown-id", [("cancel", 999)], None),
     ("cancel-string-id", [("cancel", "abc")], None),
     ("cancel-others-task", [("cancel", 0)], None),
+    ("cancel-float-id", [("cancel", 0.5)], None),
+    ("cancel-float-id-1", [("cancel", 1.5)], None),
+    ("state-float-id", [("state1", 0.5)], None),
+    ("enq-unstartable", [("enq", 3)], dict(deps=[], codes=(0,), unstartable=True)),
     ("invalid-utf8", [("raw", b"\xff\xfe\n")], None),
     ("half-line-eof", [("raw", b'{"__kind__": "get_ta'), ("eof",)], None),
     ("eof", [("eof",)], None),
@@ -44,12 +48,15 @@ def scenario(mseq, cores=2):
     tasks = [dict(deps=[], codes=(0,)), dict(deps=[0], codes=(0,)), dict(deps=[], codes=(0,)), dict(deps=[], codes=(0,))]
     mops = []
     fail_drain = False
+    start_fail = ()
     for label in mseq:
         _, ops, tdef = next(a for a in M_ACTIONS if a[0] == label)
         if tdef is not None:
             if any(o[0] == "enq" and o[1] == 3 for o in mops):
                 return None  # M defines at most one task of its own per scenario
             tasks[3] = dict(tdef)
+            if tasks[3].pop("unstartable", False):
+                start_fail = (3,)
         if label == "states-drain-fails":
             fail_drain = True
         mops += ops
@@ -59,7 +66,7 @@ def scenario(mseq, cores=2):
         dict(name="M", ops=mops, fail_drain=fail_drain),
         dict(name="N", ops=[("enq", 2), ("states",)], healthy=True, after="M"),
     ]
-    return dict(cores=cores, tasks=tasks, ops=[], clients=clients, via="multi", mseq=list(mseq))
+    return dict(cores=cores, tasks=tasks, ops=[], clients=clients, via="multi", mseq=list(mseq), **(dict(start_fail=start_fail) if start_fail else {}))
 
 
 def scenarios(maxlen):
@@ -104,7 +111,7 @@ def run(ctx):
     ctx.pmap(me, "socket_batch", seqs, chunk=max(4, len(seqs) // 16))
     ctx.traces_validated = ctx.acc.extra["traces_validated"]
     ctx.notes.setdefault("coverage_extra", {})["real_socket_sequences"] = len(seqs)
-    ctx.rule = "scenario = sequence of M actions (21-action alphabet) next to fixed H and N scripts; all interleavings of client operations and process exits; non-trivial = distinct scenario"
+    ctx.rule = "scenario = sequence of M actions (25-action alphabet) next to fixed H and N scripts; all interleavings of client operations and process exits; non-trivial = distinct scenario"
     ctx.bound = dict(scenarios=len(scs), m_actions=len(M_ACTIONS), m_len=1 if quick else 2, deviations="1 for |M|<=1, 0 for |M|=2" if quick else "2 for |M|<=1, 1 for |M|=2", cores=2)
     ctx.assumptions = ["connections are asyncio.StreamReader objects fed by the explorer + recording writers (real sockets: real-socket tier)", "shutdown is an administrative request, not misbehaviour"]
 
@@ -114,6 +121,6 @@ def replay(case):
         from mc.runner import Acc
 
         acc = Acc()
-        socket_batch(acc, [(tuple(case["seq"]), case["ending"])])
+        socket_batch(acc, [(tuple(s_), e_) for s_, e_ in case.get("prior", [])] + [(tuple(case["seq"]), case["ending"])])
         return acc.violations
     return poolcheck.replay_pool(case, ID)
